@@ -47,9 +47,10 @@ def _min_dtype_for_encoding(data_encoding: encodings.DataEncoding):
     elif isinstance(data_encoding, encodings.FloatDataEncoding):
         nbits = data_encoding.size_in_bits
         datatype = "float"
-        if nbits == 32:
+        if nbits == 32 and data_encoding.encoding != "MILSTD_1750A":
             datatype += "32"
         else:
+            # MIL-STD-1750A 32 bit floats have a wider exponent range than IEEE 754 binary32
             datatype += "64"
     elif isinstance(data_encoding, encodings.BinaryDataEncoding):
         datatype = "bytes"
